@@ -24,6 +24,8 @@ fn space_for(tier: Tier) -> (Space, usize) {
             s.ast_range("K", 4, 4, 32, 2);
             s.ast_range("ALT", 1, 3, 16, 4).ast_range("LP", 1, 3, 16, 5).ast_range("FX", 1, 4, 16, 6);
             s.ast_range("ALTS", 1, 4, 16, 4).ast_range("SEQO", 1, 5, 16, 4).ast_range("HI", 1, 3, 16, 4).ast_range("HIQ", 1, 4, 16, 3).ast_range("QN", 1, 4, 8, 11).ast_range("ALTM", 1, 4, 16, 4);
+            s.tok("SPELL", &gen::T_SPELL, 5, 256);
+            s.ast_range("EMPB", 1, 5, 16, 4);
             (s, 3)
         }
         Tier::Thorough => {
@@ -31,6 +33,8 @@ fn space_for(tier: Tier) -> (Space, usize) {
             s.ast_range("ALT", 1, 4, 16, 3).ast_range("LP", 1, 4, 16, 5).ast_range("FX", 1, 4, 16, 6);
             s.ast_range("ALTS", 1, 4, 16, 4).ast_range("SEQO", 1, 5, 16, 4).ast_range("HI", 1, 4, 16, 4).ast_range("HIQ", 1, 4, 16, 4).ast_range("QN", 1, 4, 8, 11).ast_range("ALTM", 1, 4, 16, 4);
             s.ast_range("K", 5, 5, 128, 203).ast_range("CL", 4, 4, 64, 203).ast_range("KL", 1, 3, 8, 207);
+            s.tok("SPELL", &gen::T_SPELL, 6, 256);
+            s.ast_range("EMPB", 1, 5, 16, 4);
             (s, 4)
         }
     }
@@ -269,6 +273,47 @@ impl Check for C20 {
         let (sp, maxlen) = space_for(ctx.tier);
         let (seg, lo, hi) = sp.locate(chunk);
         let scope_name = space::seg_scope_name(seg);
+        if let SegKind::Tok { .. } = seg.kind {
+            // every law r{1} = r and (?:r) = r applied at all positions at once: the token
+            // string against its plain spelling, on every input over a d
+            let inputs = all_strings(&['a', 'd'], 6);
+            space::for_each_text(seg, lo, hi, &mut |_i, text| {
+                let plain = text.replace("a{1}", "a").replace("(?:a)", "a").replace("(?:d){1}", "d");
+                if plain == text {
+                    return;
+                }
+                let (ra, rb) = match (common::compile(text, "", false), common::compile(&plain, "", false)) {
+                    (Compiled::Ok(a), Compiled::Ok(b)) => (a, b),
+                    _ => {
+                        out.inc("rejected_or_crash");
+                        return;
+                    }
+                };
+                out.inc("nontrivial");
+                for inp in &inputs {
+                    out.inc("states");
+                    let (ma, mb) = (imp::is_match(&ra, inp), imp::is_match(&rb, inp));
+                    let (sa, sb) = (imp::spans_from_replace(&ra, inp), imp::spans_from_replace(&rb, inp));
+                    if ma.is_crash() && mb.is_crash() {
+                        out.inc("inconclusive_crash");
+                        continue;
+                    }
+                    out.inc("validated");
+                    if ma != mb || sa != sb {
+                        out.fail(
+                            "C20",
+                            &Case::new(&scope_name, text, "").input(inp).repl("law:r{1} = r, (?:r) = r at every position").api(if ma != mb { "is_match" } else { "replace_all" }),
+                            if ma != mb { "SpellingsDiffer" } else { "SpansDiffer" },
+                            &format!("same answer for {:?} and {:?}", text, plain),
+                            &format!("{} {:?} vs {} {:?}", ma.show(), sa.ok(), mb.show(), sb.ok()),
+                            "",
+                        );
+                    }
+                }
+                out.sample(J::obj(vec![("spelling", J::s(text)), ("plain", J::s(&plain))]));
+            });
+            return;
+        }
         let (scope, size) = match &seg.kind {
             SegKind::Ast { scope, size } => (*scope, *size),
             _ => unreachable!(),
